@@ -94,7 +94,7 @@ func runC20(c *Ctx) {
 					continue
 				}
 				e := p.Render(effectiveResults(r)[errResultIndex(fn.Signature)])
-				if strings.HasPrefix(e, "lang.RuntimeError{Message: (*lang.Evaluator).pushFrame(") {
+				if (strings.HasPrefix(e, "lang.RuntimeError{Message: ") || strings.HasPrefix(e, "(*lang.Evaluator).error(")) && strings.Contains(e, "(*lang.Evaluator).pushFrame(") {
 					wrapped = true
 				}
 			}
